@@ -101,6 +101,44 @@ CHECKS["C16"] = dict(
     technique=TECH,
 )
 
+CHECKS["C08"] = dict(
+    category="proof",
+    text=("The per-entry block of finder.find (the body of its innermost entry loop, verified as a unit on the real ast) "
+          "is proved, for every entry, to create a NEW platform object and to perform on that object only, in this order: "
+          "every -I directory in order, every -D macro in order, each -include looked up from the file's directory (insert + "
+          "associate with the same object on a hit), and finally the file itself - so nothing defined, marked once or cached "
+          "for one entry can reach another through the platform object. Footprint obligations (no `global`, no class-level "
+          "mutable state on the association path, Platform.__init__ starts empty, the object is allocated inside the loop) "
+          "are checked syntactically. Composition over all entries/platforms, -p projection and order independence are a "
+          "bounded stand-in (multi-platform model code bases vs per-entry reference, reversed orders, single-platform runs)."),
+    design_ref="DESIGN.md section 5 C08, section 9",
+    note=COMMON_NOTE + "Callees (Platform methods, insert_file, associate) are opaque here and owned by C01/C04/C15; per-entry determinism of associate assumed; Token.prev_white stores listed as frame exception.",
+    technique=TECH,
+)
+CHECKS["C09"] = dict(
+    category="proof",
+    text=("CodeBase.__contains__ is proved to return the membership formula evaluated on the RESOLVED path (exists, not a "
+          "directory, recognised suffix, below a code-base directory, not matched relative to the first such directory) - "
+          "hence independent of spelling and links - and CodeBase.__iter__ to yield exactly the members found below the "
+          "directories; the suffix table is checked against FileLanguage's. The gitignore semantics of the matcher is "
+          "pathspec's (assumed, NOT claimed); a native run compares it with `git check-ignore` on random trees (bounded) "
+          "and reports one known divergence."),
+    design_ref="DESIGN.md section 5 C09, section 9",
+    note=COMMON_NOTE + "A4 pathlib/os.path as uninterpreted relations on a static FS; A6 pathspec match_file uninterpreted.",
+    technique=TECH,
+)
+CHECKS["C13"] = dict(
+    category="proof",
+    text=("config.load_database is proved (two nested loops, offset/prefix-sum invariants) to emit in database order exactly "
+          "one entry per configuration of every supported command whose file exists, with `file` and every -I/-isystem "
+          "directory resolved against the entry's directory (itself relative to the root when not absolute), one warning "
+          "per skipped entry, never an exception for any spelling, later entries unaffected; CompileCommand.is_supported "
+          "is proved for the arguments form. Three defects found this way were fixed in /repo."),
+    design_ref="DESIGN.md section 5 C13, section 9",
+    note=COMMON_NOTE + "A4 os.path functions uninterpreted; from_file / ArgumentParser.parse_args opaque; DEBUG logging disabled; the `command` string form (shlex) only in the bounded native run.",
+    technique=TECH,
+)
+
 NA = {}
 
 DEFAULT_NA = "check not built yet (work in progress; see DESIGN.md section 5 for the plan)"
